@@ -560,7 +560,7 @@ func runWalkGlob(cfg config) {
 		}
 		return
 	}
-	ntrees, hl, maxSeg, maxPaths := 14, 30, 2, 7
+	ntrees, hl, maxSeg, maxPaths := 40, 30, 2, 8
 	if cfg.tier == "thorough" {
 		ntrees, hl, maxSeg, maxPaths = 120, 45, 3, 14
 	}
@@ -577,7 +577,11 @@ func runWalkGlob(cfg config) {
 		o.count(fmt.Sprintf("acting-admin:%d", t.user[2]))
 		hdr := fmt.Sprintf("memfs %s %d -", cr, t.um)
 		mo := vfsOps(t.w.views[0])
-		qs := t.queries(r, mo, maxSeg, maxPaths, false, nil)
+		ms := maxSeg
+		if i%5 == 4 {
+			ms = 3 // three-segment patterns on every fifth tree also in the quick tier
+		}
+		qs := t.queries(r, mo, ms, maxPaths, false, nil)
 		emitBatches(o, hdr, t.ops, qs, func(q string) string { return guardedQuery(mo, q) }, nil)
 		nq += len(qs)
 		// one wrapper / other file system per tree
@@ -759,7 +763,7 @@ func runWalkGlobOracle(cfg config) {
 		}
 		return
 	}
-	ntrees, hl, maxSeg, maxPaths := 10, 30, 2, 6
+	ntrees, hl, maxSeg, maxPaths := 30, 30, 2, 7
 	if cfg.tier == "thorough" {
 		ntrees, hl, maxSeg, maxPaths = 80, 45, 3, 12
 	}
